@@ -1,3 +1,4 @@
+import FsDb.Proofs.ConcCfs
 import FsDb.Proofs.CfsInv
 /-!
 # C14 — Space of unreachable contents is reclaimed; the disk holds only live data
@@ -154,5 +155,49 @@ example :
     let s := (Spec.run {} [.set 0 "a" 1, .set 0 "a" 2, .begin 1 .ser, .set 1 "b" 3, .set 0 "b" 4, .commit 1, .begin 2 .rc, .set 2 "c" 5,
       .rollback 2, .set 0 "d" 6, .del 0 "d", .drain, .gc]).1
     s.dom.filterMap (fun k => (committed s k).bind (·.val)) = [2, 4] := by decide
+
+/-! ## under concurrency -/
+open FsDb.Conc in
+/-- **No orphan content, under every schedule.**  In every state the small-step model can reach —
+    any number of goroutines writing, committing, rolling back, collecting and deleting, step by
+    step — every content record (content file) belongs to a version that is still linked, to a
+    queued deletion job, or to a job a goroutine is executing right now; no content id has two
+    records; every content record has its version record. -/
+theorem C14_concurrent_invariant (acts : List Conc.Act) : CfsInv (Conc.withBusy (Conc.exec {} acts)) :=
+  (Conc.cc_reachable acts).cfs
+
+open FsDb.Conc in
+/-- **Quiescence after any concurrent history.**  Whatever schedule led there: once no job is in
+    execution, no transaction is inside Commit / Rollback and none is registered, `drain; gc` leaves
+    in the storage exactly the committed value of every key that has one — nothing a concurrent
+    history superseded, rolled back, refused or deleted is left behind. -/
+theorem C14_concurrent_quiescent (acts : List Conc.Act)
+    (hbusy : (Conc.exec {} acts).busy = []) (hcl : (Conc.exec {} acts).closing = [])
+    (hreg : (Conc.exec {} acts).sys.reg = []) :
+    (((Conc.exec {} acts).sys.drain).1.gc).1.tree = (Spec.step (Conc.specOf (Conc.exec {} acts)) .tree).2 := by
+  have h := Conc.reachable_inv acts
+  have c := Conc.cc_reachable acts
+  have hw : Conc.withBusy (Conc.exec {} acts) = (Conc.exec {} acts).sys := by
+    unfold Conc.withBusy Conc.withB; rw [hbusy]; rfl
+  have hR : R (Conc.exec {} acts).sys (Conc.specOf (Conc.exec {} acts)) := by
+    have := h.rel
+    rw [hcl, hw] at this
+    exact this
+  have hC : CfsInv (Conc.exec {} acts).sys := by
+    have := c.cfs
+    rw [hw] at this
+    exact this
+  exact C14_quiescent_storage hR hC hreg
+
+/-- non-vacuity: a schedule with an overwrite racing a reader, a collector pass and a commit window
+    ends in a state that meets the hypotheses -/
+example :
+    let σ := Conc.exec {}
+      [.call 0 (.set 0 "k" 1), .run 0, .run 0, .run 0, .run 0,
+       .call 1 (.begin 1 .ser), .run 1, .run 1, .run 1,
+       .call 0 (.set 0 "k" 2), .run 0, .run 0, .run 0, .run 0,
+       .call 1 (.commit 1), .run 1,
+       .call 2 .gc, .run 2, .run 2, .run 2, .run 2, .run 2, .run 1, .run 1]
+    σ.busy = [] ∧ σ.closing = [] ∧ σ.sys.reg = [] := by decide
 
 end FsDb.C14
